@@ -21,7 +21,7 @@ C11_JOBS = int(os.environ.get('VERIF_C11_JOBS', '6'))
 
 RULE = ('programs = view expression trees of depth 1..2 (quick) / 1..3 (thorough) over leaves of every static-knowledge kind '
         '(constant shape cs/fx, clipped shape cl/cld/cla, fixed dim fd/fdf/fdh, bounded dim bd, dynamic dy): depth 1 = every operation '
-        'variant (compile-time / clipped / fixed-length run-time / dynamic run-time arguments) x every leaf kind, depth 2..3 = fixed-seed sample; '
+        'variant (compile-time / clipped / fixed-length run-time / dynamic run-time arguments) x every leaf kind, depth 2..3 = fixed-seed sample over the 23 view functions with a Lean transfer function; '
         'instances = every run-time shape admitted by the leaf types when that set is small (all shapes under a clipped bound, all factorisations '
         'of a fixed buffer), VERIF_SEED-sampled shapes for fixed-dim / bounded-dim / dynamic leaves, run-time arguments derived from the instance; '
         'only instances NumPy accepts. non-trivial = the run-time shape of the instance differs from the nominal shape of the program or the program has depth >= 2')
@@ -31,30 +31,42 @@ ANCHORS = {
     'NmVerif.Static.SInfo.traits': 'decorator_t / indexing_t specialisations of the five traits (decorator.hpp:1067-1225, indexing.hpp:418-477)',
     'NmVerif.Static.transfer*': 'resolve_optype of index::shape_transpose / shape_reshape / shape_flatten / shape_broadcast_to / broadcast_shape / '
                                 'shape_tile / shape_expand_dims / shape_squeeze / remove_dims / shape_concatenate, ufunc_t / reduce_t size types',
-    'eval result': 'resolve_optype<eval_type_resolver_t<default_type_resolver_t>> (eval.hpp:706-879), evaluator_t::operator()',
+    'NmVerif.Static.transfer* (StaticMore.lean)': 'resolve_optype of index::shape_repeat / shape_pad / shape_roll / shape_slice / shape_dynamic_slice / '
+                                'moveaxis_to_transpose / shape_take / shape_atleast_nd / shape_matmul / broadcast_size, accumulate_t shape_/size_, '
+                                'take_t and matmul_t fixed_size / bounded_size, decorator default over a tuple of operands (where)',
+    'NmVerif.Static.resolveEval': 'resolve_optype<eval_type_resolver_t<default_type_resolver_t<Layout>>, view_t, none_t> (eval.hpp:706-879): candidate '
+                                'shape / data buffers and the priority chain; compared as rk / rfz / rbz of the result type on every modelled program',
+    'eval result': 'evaluator_t::operator() on the container the resolver chose: result shape and every element compared with the view',
 }
 ASSUMPTIONS = ['which static kind a composed view type gets is decided by C++ metafunctions; the Lean transfer functions are a hand-written mirror, '
                'tied to them by comparing the predicted with the printed static knowledge for every generated program of the modelled operations',
                'instances are restricted to positive extents and to arguments NumPy accepts (invalid arguments are C15)',
                'kind combinations the unchanged library cannot compile are excluded (harness/c11_uncompilable.txt)']
-PARTIAL = ['no Lean transfer function (static knowledge checked against run-time objects and NumPy only): repeat, pad, cumsum, roll, flip, moveaxis, take, '
-           'slice, atleast_nd, scalar multiply, where, matmul; eye/tri/pooling/resize/sliding_window/outer/compress are not generated at all',
-           'the eval resolver (eval.hpp:706-879) is not modelled in Lean: that the chosen container has room is checked per instance '
-           '(result shape and every element compared with the view), and follows from result_buffer_fits only for buffers sized by bounded_size']
+PARTIAL = ['no Lean transfer function (static knowledge and eval result checked against run-time objects and NumPy for every leaf kind, depth 1): '
+           'eye, tri, tril/triu, max_pool2d/avg_pool2d, resize, sliding_window, compress, outer',
+           'where_static_sound excludes the operand-type class whereTripled (known finding C11.where-tripled-fixed-size, where_counterexample)',
+           'the eval resolver model covers the default resolver with context None and no caller-supplied output (eval.hpp:706-879); the older '
+           'resolver used by a bare array::eval(view) (eval.hpp:881-) is not modelled']
 MANIFEST = dict(
     text=('Proof: the compile-time knowledge nmtools attaches to an array / view type is modelled as an abstract value (shape-type kind: '
           'constant / clipped / fixed dim / bounded dim / dynamic; size: known / at most / unknown) with concretisation gamma; Lean theorems show that the '
-          'five traits are true of every instance (traits_sound), that the transfer function of each of 11 view functions (transpose, reshape, flatten, '
-          'broadcast_to, tile, expand_dims, squeeze, reductions, unary and binary ufuncs, concatenate) is sound for ALL shapes, ranks and arguments, that '
-          'soundness composes over arbitrary view expression trees (static_sound) and that a buffer of bounded_size elements holds every result '
-          '(result_buffer_fits). The transfer functions are tied to the real metafunctions by generated translation units: for every program (depth 1..3 over '
-          '10 leaf kinds) the printed fixed_shape/fixed_dim/fixed_size/bounded_dim/bounded_size and shape-type kind must equal the Lean prediction, and for every '
+          'five traits are true of every instance (traits_sound), that the transfer function of each of 23 view functions (transpose, reshape, flatten, '
+          'broadcast_to, tile, expand_dims, squeeze, reductions, unary and binary ufuncs, concatenate; repeat, pad, cumsum/accumulate, roll, flip, slice, '
+          'moveaxis, take, atleast_nd, ufunc with a number, where, matmul) is sound for ALL shapes, ranks and arguments, that soundness composes over '
+          'arbitrary view expression trees (static_sound), that a buffer of bounded_size elements holds every result (result_buffer_fits) and that the '
+          'container the default eval resolver chooses from the five traits can be given the run-time shape and holds every element of every instance '
+          '(eval_result_buffer_fits, composed_eval_result_fits). The transfer functions and the resolver model are tied to the real metafunctions by '
+          'generated translation units: for every program (depth 1..3 over 10 leaf kinds) the printed fixed_shape/fixed_dim/fixed_size/bounded_dim/'
+          'bounded_size, the shape-type kind and the kind / fixed_size / bounded_size of the eval result type must equal the Lean prediction, and for every '
           'run-time shape the type admits they must agree with the object and with NumPy, and eval must return the whole result.'),
     note=('Lean kernel + propext/Classical.choice/Quot.sound. The C++ template level itself is not verified: the transfer functions are a hand-written mirror, '
-          'compared with the compiler-computed traits on every generated program; 13 further view functions (repeat, pad, cumsum, roll, flip, moveaxis, take, slice, '
-          'atleast_nd, scalar multiply, where, matmul) are checked against the run-time objects and NumPy only (no Lean transfer). Three metafunctions '
-          'that read the maxima of a clipped shape as its extents (broadcast_shape, shape_take, shape_squeeze) were found by this check and repaired '
-          '(fixes/C11-*.diff); the transfer functions mirror the repaired code. Kind combinations that do not compile are excluded (harness/c11_uncompilable.txt).'),
+          'compared with the compiler-computed traits on every generated program. Open finding C11.where-tripled-fixed-size: view::where inherits the decorator '
+          'default that ADDS the sizes of its three broadcast operands; when the broadcast size is a compile-time constant but the shape is not, fixed_size_v is '
+          '3x the real size and eval returns garbage (where_counterexample; repair in fixes/C11-where-size-of-broadcast-operand.diff); where_static_sound holds '
+          'outside that class. matmul of two constant-shape operands reports fixed_size 4 next to bounded_size 36 (sound; SizeK.knownB). '
+          'Three metafunctions that read the maxima of a clipped shape as its extents '
+          '(broadcast_shape, shape_take, shape_squeeze) were found earlier and repaired (fixes/C11-*.diff). Kind combinations that do not compile are excluded '
+          '(harness/c11_uncompilable.txt).'),
     technique='Lean 4 soundness proof of an abstract interpretation + differential correspondence on generated kind-matrix translation units')
 
 _cache = {}
@@ -144,6 +156,7 @@ def judge_impl_oracle(impl, oracle):
 
 
 STATIC_KEYS = ('sk', 'fs', 'fd', 'fz', 'bd', 'bz')
+RESULT_KEYS = ('rk', 'rfz', 'rbz')
 
 
 def _who(a):
@@ -160,7 +173,8 @@ def cmp(a, b):
         if not a.startswith('ok ') or not b.startswith('M sk='):
             return False
         fa, fb = fields(a), fields(b)
-        return all(fa[k] == fb[k] for k in STATIC_KEYS) and fa['shape'] == fb['shape']
+        # static knowledge of the view type, run-time shape, and the container chosen by the eval resolver
+        return all(fa[k] == fb[k] for k in STATIC_KEYS) and fa['shape'] == fb['shape'] and all(fa[k] == fb[k] for k in RESULT_KEYS)
     if (ka, kb) == ('M', 'T'):
         if not a.startswith('M sk='):
             return False
@@ -193,6 +207,8 @@ def gen(tier, rng):
             if rargs:
                 mreq += ' rargs=' + ';'.join(G.fmt(x) for x in rargs)
             c = Case(req, home[p.id], dom=True, oracle=oracle, model=modelled, mreq=mreq, nontrivial=(T != nominal or p.depth >= 2), tags=tags, cmp=cmp)
+            if where_tripled_fixed_size(c):
+                c.dom = False       # known-defect region: the model mirrors the unsound trait, NumPy is the judge
             yield c
 
 
@@ -225,5 +241,58 @@ def coverage_extra(cases, tier):
 
 
 # the three findings of round 1 (broadcast_shape / shape_take / shape_squeeze over clipped shapes) are repaired in /repo
-# (fixes/C11-*.diff): no known-finding class is left for this property
-KNOWN_PREDICATES = {}
+# (fixes/C11-*.diff).  Open: the decorator default ADDS the sizes of the three broadcast operands of view::where.
+_WHERE_LEAVES = re.compile(r'^where\(([a-z]+)\[([0-9,]+)\](?:,([a-z]+)\[([0-9,]+)\])?;([abs]{3})\)$')
+_CONST_KINDS = ('cs', 'fx')
+_CLIPPED_KINDS = ('cl', 'cld', 'cla')
+
+
+def _size_kind(kind, P):
+    """size type of `size<true>(leaf)`: ('known', n) | ('atMost', n) | ('any',)"""
+    if kind in ('cs', 'fx', 'fdf'):
+        return ('known', G.prod(P))
+    if kind in ('cl', 'cld', 'fdh'):
+        return ('atMost', G.prod(P))
+    if kind == 'cla':
+        return ('atMost', max(P) ** len(P))
+    return ('any',)
+
+
+def _bsize_step(z1, z2):
+    """mirror of NmVerif.Static.bsizeStep (broadcast_shape.hpp:544-556)"""
+    if z1 == ('known', 1) and z2[0] in ('known', 'atMost'):
+        return z2
+    if z1[0] in ('known', 'atMost') and z2 == ('known', 1):
+        return z1
+    return ('any',)
+
+
+def where_tripled_fixed_size(case):
+    """input class of C11.where-tripled-fixed-size for depth-1 programs `where(c, x, y)` over leaf arrays and number literals
+    (mirror of NmVerif.Static.whereTripled): the broadcast shape type is not a tuple of constants / clipped integers (some
+    array operand has a run-time shape) while the fold of index::broadcast_size over the operands' size types ends in a
+    compile-time constant - all operands but one have size type ct<1> (number literals, one-element fixed arrays) and that one
+    has a fixed-size buffer.  fixed_size_v of the view is then 3 x that constant."""
+    m = re.search(r' e=(\S+) shapes=', case.req)
+    if not m:
+        return False
+    w = _WHERE_LEAVES.match(m.group(1))
+    if not w:
+        return False
+    leaves = {'a': (w.group(1), ints(w.group(2)))}
+    if w.group(3):
+        leaves['b'] = (w.group(3), ints(w.group(4)))
+    ops = [leaves.get(ch) for ch in w.group(5)]          # None = number literal
+    if any(ch != 's' and leaves.get(ch) is None for ch in w.group(5)):
+        return False
+    arrays = [o for o in ops if o is not None]
+    if all(k in _CONST_KINDS + _CLIPPED_KINDS for k, _ in arrays):
+        return False            # constant or clipped broadcast shape: the size comes from the shape type
+    z = None
+    for o in ops:
+        zo = ('known', 1) if o is None else _size_kind(*o)
+        z = zo if z is None else _bsize_step(z, zo)
+    return z[0] == 'known'
+
+
+KNOWN_PREDICATES = {'where_tripled_fixed_size': where_tripled_fixed_size}
